@@ -391,7 +391,7 @@ func (g *mgen) bounded(kind string) T {
 		case 0:
 			t.MinLen = IntPtr(rapid.IntRange(1, 3).Draw(g.t, "minlen"))
 		case 1:
-			t.MaxLen = IntPtr(rapid.IntRange(1, 8).Draw(g.t, "maxlen"))
+			t.MaxLen = IntPtr(rapid.IntRange(0, 8).Draw(g.t, "maxlen"))
 		default:
 			t.MinLen = IntPtr(rapid.IntRange(1, 2).Draw(g.t, "minlen"))
 			t.MaxLen = IntPtr(rapid.IntRange(3, 8).Draw(g.t, "maxlen"))
